@@ -198,6 +198,29 @@ fn reverse_list_entries(v: &mut Value, in_list: bool) {
     }
 }
 
+/// The canonical document must also parse to what it SAYS (two presentations that lose the same entry would still
+/// agree with each other): every list keeps its entries, the challenge keeps its bytes.
+fn says_what_it_said(canon: &Value, parsed: &Value) -> bool {
+    let (c, p) = (&canon["publicKey"], &parsed["publicKey"]);
+    let len = |v: &Value| v.as_array().map(|a| a.len());
+    let lists_ok = ["excludeCredentials", "allowCredentials", "pubKeyCredParams", "hints", "attestationFormats"]
+        .iter()
+        .all(|k| c.get(*k).is_none() || len(&c[*k]) == len(&p[*k]));
+    let nested_ok = ["excludeCredentials", "allowCredentials"].iter().all(|k| {
+        c.get(*k).and_then(|v| v.as_array()).map(|a| {
+            a.iter().enumerate().all(|(i, d)| d.get("transports").is_none() || len(&d["transports"]) == len(&p[*k][i]["transports"]))
+        }).unwrap_or(true)
+    });
+    let bytes_of = |v: &Value| -> Option<Vec<u8>> {
+        match v {
+            Value::Array(a) => a.iter().map(|x| x.as_u64().map(|n| n as u8)).collect(),
+            Value::String(t) => crate::rp::b64url_decode(t),
+            _ => None,
+        }
+    };
+    lists_ok && nested_ok && bytes_of(&c["challenge"]).is_some() && bytes_of(&c["challenge"]) == bytes_of(&p["challenge"])
+}
+
 fn parse_same(c: &Value, m: &Mat) -> (String, bool) {
     let mut v = doc(c, m, true);
     if c["order"] == "rev" {
@@ -211,7 +234,8 @@ fn parse_same(c: &Value, m: &Mat) -> (String, bool) {
         let a = serde_json::from_str::<CredentialCreationOptions>(&vtext);
         let b = serde_json::from_str::<CredentialCreationOptions>(&ctext);
         match (a, b) {
-            (Ok(a), Ok(b)) => ("ok".into(), serde_json::to_value(&a).unwrap() == serde_json::to_value(&b).unwrap() && format!("{a:?}") == format!("{b:?}")),
+            (Ok(a), Ok(b)) => ("ok".into(), serde_json::to_value(&a).unwrap() == serde_json::to_value(&b).unwrap() && format!("{a:?}") == format!("{b:?}")
+                && says_what_it_said(&canon, &serde_json::to_value(&b).unwrap())),
             (Err(e), _) => (format!("err: {e}"), false),
             (_, Err(e)) => (format!("canonical-err: {e}"), false),
         }
@@ -219,7 +243,8 @@ fn parse_same(c: &Value, m: &Mat) -> (String, bool) {
         let a = serde_json::from_str::<CredentialRequestOptions>(&vtext);
         let b = serde_json::from_str::<CredentialRequestOptions>(&ctext);
         match (a, b) {
-            (Ok(a), Ok(b)) => ("ok".into(), serde_json::to_value(&a).unwrap() == serde_json::to_value(&b).unwrap() && format!("{a:?}") == format!("{b:?}")),
+            (Ok(a), Ok(b)) => ("ok".into(), serde_json::to_value(&a).unwrap() == serde_json::to_value(&b).unwrap() && format!("{a:?}") == format!("{b:?}")
+                && says_what_it_said(&canon, &serde_json::to_value(&b).unwrap())),
             (Err(e), _) => (format!("err: {e}"), false),
             (_, Err(e)) => (format!("canonical-err: {e}"), false),
         }
@@ -243,8 +268,11 @@ pub fn main(args: &Args) {
         v
     };
     for c in &cases {
+        // (now and then a byte string longer than any buffer a decoder may size from a constant)
         let lens = [0usize, 1, 2, 3, 16, 31, 32, 33, 64];
-        let pick = |rng: &mut rand::rngs::StdRng| -> usize { *lens.choose(rng).unwrap() };
+        let pick = |rng: &mut rand::rngs::StdRng| -> usize {
+            if rng.gen_range(0..60) == 0 { *[4096usize, 4097, 70000].choose(rng).unwrap() } else { *lens.choose(rng).unwrap() }
+        };
         let (l1, l2, l3, l4, l5, l6) = (pick(&mut rng), pick(&mut rng), 16 + rng.gen_range(0..3), 1 + rng.gen_range(0..40), pick(&mut rng), 1 + rng.gen_range(0..40));
         let m = Mat {
             challenge: rnd(&mut rng, l1),
